@@ -85,7 +85,7 @@ class WeightedSum(SameArrayShapeMixin, Command):
         arrays = [c.result for c in kwargs["InFieldNames"]]
 
         if len(weights) != len(arrays):
-            raise MismatchedWeights(len(weights), len(arrays))
+            raise MismatchedWeights(len(weights), len(arrays), lineno=self.argument_lines.get("Weights", self.lineno))
 
         self.validate_array_shapes(arrays, lineno=self.lineno)
 
@@ -207,7 +207,7 @@ class WeightedMean(SameArrayShapeMixin, Command):
         arrays = [c.result for c in kwargs["InFieldNames"]]
 
         if len(weights) != len(arrays):
-            raise MismatchedWeights(len(weights), len(arrays))
+            raise MismatchedWeights(len(weights), len(arrays), lineno=self.argument_lines.get("Weights", self.lineno))
 
         self.validate_array_shapes(arrays, lineno=self.lineno)
 
